@@ -383,6 +383,7 @@ for _id, _sc in _SCOPES.items():
     PROPERTIES[_id]["rules"].append((G.G25_vectorize_output_type, "%s np.vectorize of a function with mixed int / float results states its output type" % _id, {"scope": _sc}))
     PROPERTIES[_id]["rules"].append((G.G26_any_of_indices, "%s emptiness of an index collection is not tested by the truth of its elements" % _id, {"scope": _sc}))
     PROPERTIES[_id]["rules"].append((G.G27_unique_count_vs_size, "%s a count of distinct values is not compared with a size (repeated entries)" % _id, {"scope": _sc}))
+    PROPERTIES[_id]["rules"].append((G.G28_alias_sibling_update, "%s sibling branches update an array stored in an object consistently (in place vs re-binding)" % _id, {"scope": _sc}))
     PROPERTIES[_id]["rules"].append((G.G12_set_order, "%s a sequence made from a set is not used as an ordered selector" % _id, {"scope": _sc}))
     PROPERTIES[_id]["rules"].append((G.G10_defined_before_use, "%s every read of a local is reached by an assignment (no statement moved above the one that defines its input)" % _id, {"scope": _sc}))
     PROPERTIES[_id]["rules"].append((G.G7_api_contract_pitfalls, "%s API contracts: insertion points as indices, span versus length, memoised functions / caching properties, stored tables tested by truth value" % _id, {"scope": _sc}))
